@@ -8,21 +8,21 @@ namespace Theo
 /-- after any history of debugger calls the computation state (ip, data, activations) is a
     point of the uninterrupted run of the loaded program -/
 theorem C05_on_path (p : Program) (hs : SitesOK p) (vm : VM) (hr : Reach p vm) :
-    OnPath p vm.core := by
-  sorry
+    OnPath p vm.core :=
+  InvB.reach_onPath hs hr
 
 /-- the live code differs from the loaded program only by `POTENTIAL_BREAK ↦ BREAK` -/
 theorem C05_code_only_breaks (p : Program) (hs : SitesOK p) (vm : VM) (hr : Reach p vm) :
     vm.code.length = p.code.length ∧
     ∀ i : Nat, vm.code[i]? ≠ p.code[i]? →
-      p.code[i]? = some Instr.potBreak ∧ vm.code[i]? = some Instr.brk := by
-  sorry
+      p.code[i]? = some Instr.potBreak ∧ vm.code[i]? = some Instr.brk :=
+  InvB.code_only_breaks (InvB.CodeInv.reach hs hr)
 
 /-- a debugged run that reaches the end ends in the same state as the uninterrupted run -/
 theorem C05_same_end (p : Program) (hs : SitesOK p) (vm : VM) (hr : Reach p vm)
     (hd : vm.isDone = .ok true) (m : Nat) (c : Core)
     (hc : coreIter p m coreInit = .ok c) (hh : fetch p.code c.ip = .ok Instr.halt) :
-    vm.core = c := by
-  sorry
+    vm.core = c :=
+  InvB.same_end hs hr hd hc hh
 
 end Theo
